@@ -331,6 +331,7 @@ static void e_emit_header(const char *mode)
 
 /* ---------------------------------------------------------------- modes */
 #define E_MAXOPS 4096
+static long e_pathof = -1;     /* pathof mode: stop when this state index exists and print how to reach it */
 static int e_explore(long maxstates)
 {
     static jb_t pre, post, res;
@@ -341,6 +342,15 @@ static int e_explore(long maxstates)
     e_add(pre.p, -1, NULL);
     for (i = 0; i < e_ns && !e_fatal_seen; i++) {
         int no, j;
+        if (e_pathof >= 0 && (long)e_ns > e_pathof) {
+            /* the state exists: print the operations that lead to it, one replay line each */
+            int d = e_st[e_pathof].depth, k, sidx = (int)e_pathof;
+            vop_t *path = e_malloc(((size_t)d + 1) * sizeof *path);
+            for (k = d - 1; k >= 0; k--) { path[k] = e_st[sidx].op; sidx = e_st[sidx].parent; }
+            printf("reset\n");
+            for (k = 0; k < d; k++) { int q; printf("%d", path[k].k); for (q = 0; q < VOP_NARGS; q++) printf(" %d", path[k].a[q]); printf("\n"); }
+            return 0;
+        }
         e_goto((int)i);
         no = drv_enum(ops, E_MAXOPS);
         if (no > E_MAXOPS) { fprintf(stderr, "engine: too many ops\n"); return 72; }
@@ -455,7 +465,12 @@ static int e_main(int argc, char **argv)
     if (getenv("VERIF_HANG_SECS")) e_hang_secs = atoi(getenv("VERIF_HANG_SECS"));
     drv_setup(argc - dd - (dd < argc), argv + dd + (dd < argc));
     e_install();
-    if (!strcmp(argv[1], "explore")) {
+    if (!strcmp(argv[1], "pathof")) {
+        /* pathof <sid> : same exploration order as `explore`, no trace written */
+        e_pathof = atol(argv[2]);
+        e_out = fopen("/dev/null", "w");
+        rc = e_explore(0);
+    } else if (!strcmp(argv[1], "explore")) {
         e_out = fopen(argv[2], "w"); if (!e_out) { perror(argv[2]); return 73; }
         setvbuf(e_out, obuf, _IOFBF, sizeof obuf);
         rc = e_explore(dd > 3 ? atol(argv[3]) : 0);
